@@ -850,7 +850,14 @@ func (fr *frame) havocLoopCells(l *loop, st *State) {
 						continue
 					}
 					t := a.Type().(*types.Pointer).Elem()
+					old := st.cells[a]
 					st.cells[a] = u.symVal(u.freshName("L_"+a.Comment), t, false)
+					// remembered for replay: a counterexample in the first iteration is reachable from the inputs
+					if ot, ok := old.(*Term); ok {
+						if nt, ok := st.cells[a].(*Term); ok && len(u.loopFirst) < 64 {
+							u.loopFirst = append(u.loopFirst, [2]*Term{nt, ot})
+						}
+					}
 				}
 			}
 		}
